@@ -230,12 +230,14 @@ def judge_lineage(a):
     named, withs, derived, targets = (set(unhexlist(f[k])) for k in ("named", "with", "derived", "target"))
     for k in cold:
         if k in named or k in targets:
-            if k in withs and k not in targets:
-                return ("lineage:with-table", "provider asked for the WITH table %r" % k)
             continue
         if k.startswith("`") and k.replace("`", "") in targets:
             return ("spelling:insert-target", "INSERT target requested as %r, source tables are requested as %r" % (k, k.replace("`", "")))
-        return ("lineage:not-named", "provider asked for %r; the statement names %r" % (k, sorted(named | targets)))
+        if k in withs:
+            return ("lineage:with-table", "provider asked for %r, which the statement uses only as a WITH table" % k)
+        if k in derived:
+            return ("lineage:derived-table", "provider asked for %r, which the statement uses only as a derived-table alias" % k)
+        return ("lineage:not-named", "provider asked for %r; the statement names the base tables %r" % (k, sorted(named | targets)))
     if len(set(cold)) != len(cold):
         return ("lineage:asked-twice", "%r" % cold)
     norm = {}
